@@ -1,4 +1,5 @@
 """C04 — emptiness, determinism, acyclicity and word enumeration."""
+import random
 import falib
 import fa_engine
 from props._fa_common import TRUSTED, ASSUMPTIONS, TECHNIQUE
@@ -13,7 +14,7 @@ LEVEL_TEXT = ("Coq theorems (no axioms), all automata: is_empty is exactly 'no w
               "correspondence (implementation under an alarm). Model tied to /repo by correspondence under several hash seeds.")
 LEVEL_NOTE = "Trusted: Coq kernel; hand-written model validated by correspondence; Python harness."
 RULE = ("random epsilon-NFA/NFA/DFA (as C01) x {is_empty, is_deterministic, is_acyclic, get_accepted_words(n) for n in 0..4 and n=None on finite languages}; "
-        "yielded sequences compared as multisets with the model; non-trivial = at least 2 transitions, a start and a final state")
+        "plus layered graphs whose paths split and rejoin over epsilon / symbol edges, with and without a back edge, under every query; yielded sequences compared as multisets with the model; non-trivial = at least 2 transitions, a start and a final state")
 EXPLANATION = "Theorems in Properties/C04.v + differential correspondence of the query answers."
 
 
@@ -31,6 +32,28 @@ def generate(ctx):
             cases.append({"op": "get_accepted_words", "fa": spec, "n": ctx.rng.choice([0, 1, 2, 3, 3, 4])})
         else:
             cases.append({"op": "get_accepted_words", "fa": spec, "n": None})
+    # systematic family (own generator, the stream above is unchanged): layered acyclic graphs in which paths split and rejoin over epsilon
+    # and/or symbol edges ("diamonds"), optionally closed by one back edge; every query of the property on each
+    r2 = random.Random("c04-diamonds|%s" % ctx.rng.random())
+    for j in range(60 if ctx.tier == "quick" else 2000):
+        layers = [["p"], ["q", "r"][:r2.choice([1, 2, 2])], ["s", "t"][:r2.choice([1, 1, 2])], ["u"]]
+        trans = []
+        for la, lb in zip(layers, layers[1:]):
+            for x in la:
+                for y in lb:
+                    if r2.random() < 0.85:
+                        trans.append([x, r2.choice([None, None, "a", "b"]), y])
+        if r2.random() < 0.3:
+            trans.append(["p", r2.choice([None, "a"]), r2.choice(layers[2] + layers[3])])        # a shortcut that rejoins later
+        if r2.random() < 0.3:
+            trans.append([r2.choice(layers[2] + layers[3]), r2.choice([None, "a"]), r2.choice(layers[0] + layers[1])])   # a back edge: cyclic
+        states = [x for la in layers for x in la]
+        spec = {"kind": "enfa", "states": states, "symbols": ["a", "b"], "trans": [t for k, t in enumerate(trans) if t not in trans[:k]],
+                "starts": ["p"] if r2.random() < 0.8 else ["p", r2.choice(states)], "finals": [r2.choice(states), "u"][:r2.choice([1, 2])],
+                "profile": "diamond", "names": "plain"}
+        cases.append({"op": "is_acyclic", "fa": spec})
+        cases.append({"op": ["is_empty", "is_deterministic"][j % 2], "fa": spec})
+        cases.append({"op": "get_accepted_words", "fa": spec, "n": (None if falib.finite_language(spec) else r2.choice([1, 2, 3]))})
     return cases
 
 
